@@ -35,12 +35,13 @@ structure Env where
 
 /-- Mutable part threaded through a step. -/
 structure St where
-  s : StoryState
+  s : Core
   externals : List (String × ExtDef)
   /-- callback events, newest first -/
   events : List Json
   sawUnsafe : Bool
-  deriving Inhabited
+  /-- warnings raised by this step, oldest first (a step never reads the warning list) -/
+  newWarnings : List String
 
 def M (α : Type) : Type := St → Out α × St
 
@@ -54,9 +55,9 @@ namespace M
 instance : Monad M where
   pure := pure'
   bind := bind'
-def get : M StoryState := fun st => (.ok st.s, st)
-def set (s : StoryState) : M Unit := fun st => (.ok (), { st with s := s })
-def modify (f : StoryState → StoryState) : M Unit := fun st => (.ok (), { st with s := f st.s })
+def get : M Core := fun st => (.ok st.s, st)
+def set (s : Core) : M Unit := fun st => (.ok (), { st with s := s })
+def modify (f : Core → Core) : M Unit := fun st => (.ok (), { st with s := f st.s })
 def getSt : M St := fun st => (.ok st, st)
 def setSt (st' : St) : M Unit := fun _ => (.ok (), st')
 def fail {α : Type} (kind msg : String) : M α := fun st => (.err kind msg, st)
@@ -64,7 +65,7 @@ def invalid {α : Type} (msg : String) : M α := fail "InvalidStoryState" msg
 def crash {α : Type} (site : String) : M α := fun st => (.panic site, st)
 def lift {α : Type} (o : Out α) : M α := fun st => (o, st)
 /-- lift a state transformer that can fail -/
-def liftS (f : StoryState → Out StoryState) : M Unit := fun st =>
+def liftS (f : Core → Out Core) : M Unit := fun st =>
   match f st.s with
   | .ok s' => (.ok (), { st with s := s' })
   | .err k m => (.err k m, st)
@@ -76,19 +77,24 @@ end M
 
 open M
 
-/-- `Story::add_error` (story/errors.rs): message with the current position; an
-    error (not a warning) ends the story. -/
-def addError (root : Obj) (s : StoryState) (message : String) (isWarning : Bool) : StoryState :=
+/-- The text `Story::add_error` (story/errors.rs) records: the message with the current position. -/
+def errorText (root : Obj) (s : Core) (message : String) (isWarning : Bool) : String :=
   let kind := if isWarning then "WARNING" else "ERROR"
   let p := s.currentPtr
-  let m :=
-    if !p.isNull then
-      match p.path root with
-      | some (some path) => "RUNTIME " ++ kind ++ ": (" ++ String.ofList path.toText ++ "): " ++ message
-      | _ => "RUNTIME " ++ kind ++ ": " ++ message
-    else "RUNTIME " ++ kind ++ ": " ++ message
-  let s1 := s.addMessage m isWarning
-  if !isWarning then s1.forceEnd else s1
+  if !p.isNull then
+    match p.path root with
+    | some (some path) => "RUNTIME " ++ kind ++ ": (" ++ String.ofList path.toText ++ "): " ++ message
+    | _ => "RUNTIME " ++ kind ++ ": " ++ message
+  else "RUNTIME " ++ kind ++ ": " ++ message
+
+/-- `Story::add_error(msg, false)`: record the error and end the story. -/
+def addErrorCore (root : Obj) (s : Core) (message : String) : Core :=
+  (s.addErrorMessage (errorText root s message false)).forceEnd
+
+/-- `Story::add_error` inside a step: a warning goes to the step's writer channel. -/
+def addErrorM (root : Obj) (message : String) (isWarning : Bool) : M Unit := fun st =>
+  if isWarning then (.ok (), { st with newWarnings := st.newWarnings ++ [errorText root st.s message true] })
+  else (.ok (), { st with s := addErrorCore root st.s message })
 
 /-- `char::is_whitespace` (Unicode White_Space) -/
 def isUnicodeWs (c : Char) : Bool :=
@@ -276,7 +282,7 @@ def callExternalFunction (env : Env) (funcName : String) (nArgs : Nat) : M Unit 
   match alGet st.externals funcName with
   | some d =>
     if !d.safe && st.s.inStringEvaluation then
-      modify (fun s => addError env.root s ("External function " ++ funcName ++ " could not be called because 1) it wasn't marked as lookaheadSafe when BindExternalFunction was called and 2) the story is in the middle of string generation, either because choice text is being generated, or because you have ink like \"hello {func()}\". You can work around this by generating the result of your function into a temporary variable before the string or choice gets generated: ~ temp x = " ++ funcName ++ "()") false)
+      addErrorM env.root ("External function " ++ funcName ++ " could not be called because 1) it wasn't marked as lookaheadSafe when BindExternalFunction was called and 2) the story is in the middle of string generation, either because choice text is being generated, or because you have ink like \"hello {func()}\". You can work around this by generating the result of your function into a temporary variable before the string or choice gets generated: ~ temp x = " ++ funcName ++ "()") false
       return ()
     if !d.safe && env.snapshotActive then
       setSt { st with sawUnsafe := true }
@@ -587,8 +593,8 @@ def performLogicAndFlowControl (env : Env) (a : Addr) (obj : Obj) : M Bool := do
         | none =>
           let v : Int := if c == .turnsSince then -1 else 0
           let cmdName := if c == .turnsSince then "TurnsSince" else "ReadCount"
-          modify (fun s => addError env.root s ("Failed to find container for " ++ cmdName ++ " lookup at "
-            ++ String.ofList p.toText) true)
+          addErrorM env.root ("Failed to find container for " ++ cmdName ++ " lookup at "
+            ++ String.ofList p.toText) true
           pushEvalM env (.val (.int v))
       | other =>
         let extra := match other with
@@ -706,7 +712,7 @@ def performLogicAndFlowControl (env : Env) (a : Addr) (obj : Obj) : M Bool := do
           let s1 := s.popFromOutput consumed
           let sb := String.join strsBackward.reverse
           set s1
-          pushEvalM env (.tag (StoryState.cleanOutputWhitespace sb))
+          pushEvalM env (.tag (Core.cleanOutputWhitespace sb))
       else modify (fun s => s.pushToOutput obj)
     return true
   | .varAss name isNew isGlobal =>
@@ -729,7 +735,7 @@ def performLogicAndFlowControl (env : Env) (a : Addr) (obj : Obj) : M Bool := do
       | none => crash "callstack.rs:get_temporary_variable_with_name"
       | some (some v) => pushEvalM env (.val v)
       | some none =>
-        modify (fun s => addError env.root s ("Variable not found: '" ++ name ++ "'. Using default value of 0 (false). This can happen with temporary variables if the declaration hasn't yet been hit. Globals are always given a default value on load if a value doesn't exist in the save state.") true)
+        addErrorM env.root ("Variable not found: '" ++ name ++ "'. Using default value of 0 (false). This can happen with temporary variables if the declaration hasn't yet been hit. Globals are always given a default value on load if a value doesn't exist in the save state.") true
         pushEvalM env (.val (.int 0))
     return true
   | .native op =>
